@@ -273,7 +273,10 @@ pub fn run_tests(
 
     if verbose && !all_fixtures.is_empty() {
         println!("Discovered {} fixture(s):", all_fixtures.len());
-        for (name, fixture) in &all_fixtures {
+        // in name order: the map's own order changes from run to run
+        let mut listed: Vec<(&String, &FixtureInfo)> = all_fixtures.iter().collect();
+        listed.sort_by(|a, b| a.0.cmp(b.0));
+        for (name, fixture) in listed {
             let scope_str = match fixture.scope {
                 FixtureScope::Function => "function",
                 FixtureScope::Module => "module",
@@ -705,11 +708,13 @@ fn expr_has_yield(expr: &crate::frontend::ast::Expr) -> bool {
 }
 
 fn get_autouse_fixtures(fixtures: &HashMap<String, FixtureInfo>, scope: FixtureScope) -> Vec<String> {
-    fixtures
+    let mut names: Vec<String> = fixtures
         .values()
         .filter(|f| f.autouse && f.scope == scope)
         .map(|f| f.name.clone())
-        .collect()
+        .collect();
+    names.sort();
+    names
 }
 
 fn extract_test_markers(
